@@ -15,6 +15,9 @@ CONSTANTS Ctx <- McCtx
  ATo = {}
  AAmt = {}
  IAmt = {}
+ ACodes = {}
+ AIds = {}
+ BGL = {}
  BoxFrom = {"a1"}
  BoxTo = {"a1", "a2"}
  RewFrom = {}
